@@ -7,7 +7,8 @@ if [ ! -d $M ]; then git -C /repo worktree add -q --detach $M HEAD || exit 1; fi
 git -C $M checkout -q --detach $(git -C /repo rev-parse HEAD) && git -C $M checkout -- . && git -C $M clean -fdq
 for d in /verif/seeded/*/; do
   n=$(basename $d)
-  id=$(python3 -c "import json;print(json.load(open('$d/meta.json'))['property'])")
+  # the check that is expected to fire: the property the change is filed under, unless meta.json names another (caught_by)
+  id=$(python3 -c "import json;m=json.load(open('$d/meta.json'));print(m.get('caught_by') or m['property'])")
   git -C $M apply $d/patch.diff || { echo "$n: patch does not apply"; continue; }
   out=$(cd /verif && VERIF_REPO=$M ./check $id $T 2>&1); rc=$?
   git -C $M checkout -- .
